@@ -595,6 +595,27 @@ def _chunk(args):
                 # a typo that is equally close to several allowed keys (the hint must not depend on the process)
                 cfg = {rng.choice(["t5", "t0", "tx", "perg", "grap"]): 1, "t2": {rng.choice(["cach", "tier", "rankin", "k_retrieva"]): 1}, "t4": {rng.choice(["cache_bust", "enable", "weight_mi"]): 1}}
                 muts = [["", "typo-ties"]]
+            elif j_ % 3 == 1:
+                # many things wrong at once, of the same kind: several sub-sections that are not objects, several unknown keys,
+                # several out-of-range leaves - the ORDER of the messages must not depend on the process either
+                cfg = {}
+                subs = sorted({p_[:-1] for p_ in allp if len(p_) >= 2})
+                subs = [p_ for p_ in subs if not any(q_ != p_ and q_[:len(p_)] == p_ for q_ in subs)]
+                for p_ in rng.sample(subs, min(len(subs), rng.randint(3, 19))):
+                    set_at(cfg, p_, rng.choice([1, "x", [], True]))
+                for p_ in rng.sample(allp, rng.randint(0, 6)):
+                    d_, free = cfg, True
+                    for k_ in p_[:-1]:
+                        if k_ not in d_:
+                            break
+                        d_ = d_[k_]
+                        if not isinstance(d_, dict):
+                            free = False  # under one of the sections made a scalar above
+                            break
+                    if free:
+                        set_at(cfg, p_, rng.choice([-1e9, "junk", None, [1]]))
+                muts = [["", "many-faults-of-one-kind"]]
+                sess.count("cli_runs_with_many_faults_of_one_kind")
             if not yaml_able(cfg):
                 continue
             import yaml
@@ -632,6 +653,7 @@ def main(tier: str, seed: int):
     sess.require("configs_executed", 200)
     sess.require("script_main_runs", 500)
     sess.require("cli_subprocess_runs", 10)
+    sess.require("cli_runs_with_many_faults_of_one_kind", 5)
     sess.finish()
 
 
